@@ -792,7 +792,19 @@ def explore_random(cr, nseq, length, do_search=True):
         if searching:
             ff = final_findings(w, hook)
             if ff:
-                report(ck, smi, oth, [t[2] for t in trail], [], ff, 'random (end of history)')
+                # the culprit is the last operation of the shortest failing prefix
+                full = [t[2] for t in trail]
+                for k2 in range(1, len(full) + 1):
+                    w2 = fresh_world(smi, oth)
+                    h2 = SearchHook()
+                    run_ops(w2, full[:k2], h2)
+                    hf2 = [f for f in h2.findings if f[0] == k2 - 1]
+                    ff2 = final_findings(w2, h2)
+                    if hf2 or ff2:
+                        report(ck, smi, oth, full[:k2], hf2, [] if hf2 else ff2, 'random (shortest failing prefix)')
+                        break
+                else:
+                    report(ck, smi, oth, full, [], ff, 'random (end of history)')
         ck.count('corr:read-raised', w.read_raised)
         cr.cases.append(f'check_steps {name} {lst(steps)}')
         cr.meta.append((f'{name}:{smi}|{oth}', [t[0] for t in trail], [t[1] for t in trail]))
@@ -1055,6 +1067,11 @@ def _labels(w):
     w.cur.calc_labels()
 
 
+def _fix_stereo(w):
+    w.cur.flush_cache()
+    w.cur.fix_stereo()
+
+
 def attempt(cur, other, ops, pre=None, post=None):
     """re-run ops with an intervention just before / after the last one; returns the failures that remain at the last step"""
     w = fresh_world(cur, other)
@@ -1116,6 +1133,9 @@ def classify(cur, other, ops, hook_findings, final):
         return None
     if k == 'add_bond' and op[3] == 8 and kinds <= {'bond-labels'}:
         return 'add_bond-special-no-labels' if clean(attempt(cur, other, ops, post=_labels)) else None
+    if k == 'add_bond' and op[3] == 8 and kinds <= {'stereo', 'cache'}:
+        # known: a special bond to a labelled stereocentre does not run fix_stereo
+        return 'add_bond-special-stereo-stale' if clean(attempt(cur, other, ops, post=_fix_stereo)) else None
     return None
 
 
@@ -1199,7 +1219,7 @@ def search_stereo_and_reactions(ck):
     # only) + an ethane in another component: edits far away from the chiral part, transactions, substructures, in-place union
     def far(e1, e2):        # e1, e2 = the ethane; e2 + 1 = the atom add_atom makes; 1 .. e1 - 1 = the chiral component
         return [READ_STR, ('add_atom', 6, 0, False, None), ('delete_atom', e2), ('delete_bond', e1, e2), ('add_bond', e1, e2 + 1, 1),
-                ('add_bond', e1, e2 + 1, 8), ('enter',), ('exit_ok',), ('exit_exn',), ('sub', tuple(range(1, e1))), ('union', True, False),
+                ('add_bond', e1, e2 + 1, 8), ('add_bond', 2, e1, 8), ('enter',), ('exit_ok',), ('exit_exn',), ('sub', tuple(range(1, e1))), ('union', True, False),
                 ('copy',), ('swap',)]
     seeds += [('raw:C[C@H](O)[C@H](Cl)[C@@H](C)O.CC', 'CN', far(9, 10)), ('raw:Cl/C=C([C@H](C)F)/[C@@H](C)F.CC', 'CN@20', far(10, 11)),
               ('C[C@H](O)[C@H](Cl)[C@@H](C)O.CC', 'CN', far(9, 10)[:6])]
